@@ -237,3 +237,44 @@ func Sprintf(format string, a ...any) string  { return format }
 func Errorf(format string, a ...any) error    { return &FmtError{format} }
 func Sprint(a ...any) string                  { return "<fmt.Sprint>" }
 func Sprintln(a ...any) string                { return "<fmt.Sprintln>\n" }
+
+// ---- errors.Is (the real one uses internal/reflectlite) ----
+
+// IsComparable reports whether the dynamic type of v is comparable; it is
+// answered by the engine from the static type information.
+func IsComparable(v any) bool { return true }
+
+func ErrorsIs(err, target error) bool {
+	if err == nil || target == nil {
+		return err == target
+	}
+	cmp := IsComparable(target)
+	return errorsIs(err, target, cmp)
+}
+
+func errorsIs(err, target error, targetComparable bool) bool {
+	for {
+		if targetComparable && IsComparable(err) && err == target {
+			return true
+		}
+		if x, ok := err.(interface{ Is(error) bool }); ok && x.Is(target) {
+			return true
+		}
+		switch x := err.(type) {
+		case interface{ Unwrap() error }:
+			err = x.Unwrap()
+			if err == nil {
+				return false
+			}
+		case interface{ Unwrap() []error }:
+			for _, e := range x.Unwrap() {
+				if errorsIs(e, target, targetComparable) {
+					return true
+				}
+			}
+			return false
+		default:
+			return false
+		}
+	}
+}
